@@ -364,6 +364,12 @@ Lemma pack_obj_ignores_prior :
     pack_obj p1 a = pack_obj p2 a /\ pack_obj p1 a = (pack a, flags_of a).
 Proof. intros p1 p2 a. split; reflexivity. Qed.
 
+(* nor on whether the object was rendered (printed, listed) in between *)
+Lemma pack_after_render :
+  forall (prior : Z) (a : attrs),
+    pack_obj (fst (render_obj (prior, a))) (snd (render_obj (prior, a))) = (pack a, flags_of a).
+Proof. intros prior a. unfold render_obj. destruct G_RENDER_READONLY; reflexivity. Qed.
+
 (* so the round trip holds for an object with any history: decoded or encoded before, then edited *)
 Lemma roundtrip_any_history prior a bs rest :
   NoDup (map fst (a_ext a)) -> fst (pack_obj prior a) = Ok bs ->
